@@ -97,6 +97,11 @@ func (c *Collection) StartDCPFeed(
 	}
 	feed.events.init()
 
+	// No write may commit and post its event between the backfill query and the registration of the
+	// feed below, or neither the backfill nor the live stream would deliver it:
+	c.bucket.postMutex.Lock()
+	defer c.bucket.postMutex.Unlock()
+
 	if args.Backfill != sgbucket.FeedNoBackfill {
 		startCas := args.Backfill
 		if args.Backfill == sgbucket.FeedResume {
